@@ -233,9 +233,12 @@ def run_check(prop, module, tier, seed):
                'bounded': ob.bounded, 'verdict': v.to_json()}
         records.append(rec)
         if ob.kind == 'canary':
-            # a canary is a deliberately false claim: it must be refuted
-            if v.status != 'refuted':
+            # a canary is a deliberately false claim: it must be refuted.  Accepting it (`proved`) voids the run (unsound engine);
+            # not deciding it (the function is out of the executor's reach on this tree) leaves the run undecided
+            if v.status == 'proved':
                 canary_fail.append(ob.id)
+            elif v.status != 'refuted':
+                undecided.append((ob, v))
             continue
         if ob.kind == 'cover':
             if ob.id.startswith('ENG/conformance'):
